@@ -1,2 +1,61 @@
 //! verification hooks for engine `alloc` (cfg(xray_verif) only)
 #![allow(unreachable_pub, dead_code, unused_imports)]
+
+use crate::runtime::RTCell;
+use crate::runtime_violation::RuntimeViolation;
+use crate::util::fenced_string::FencedString;
+use crate::util::lazy_bigint::LazyBigint;
+use crate::xvalue::{ManagedXError, ManagedXValue, XValue};
+use std::mem::size_of;
+use std::rc::Rc;
+
+/// `Runtime::allocate` for an allocateable of exactly `bytes` bytes (a `String` of that length):
+/// Ok(recorded size) or Err(violation name)
+pub fn allocate_bytes<W, R, T>(rt: &RTCell<W, R, T>, bytes: usize) -> Result<usize, String> {
+    let s = "x".repeat(bytes);
+    match rt.allocate(&s) {
+        Ok(m) => Ok(usize::from(m)),
+        Err(e) => Err(format!("{e:?}")),
+    }
+}
+
+/// `Runtime::deallocate` with a recorded size
+pub fn deallocate_bytes<W, R, T>(rt: &RTCell<W, R, T>, recorded: usize) {
+    rt.deallocate(recorded.into())
+}
+
+/// a managed error value with a message of `bytes` bytes (allocated on construction, deallocated on drop)
+pub fn managed_error<W, R, T>(
+    rt: &RTCell<W, R, T>,
+    bytes: usize,
+) -> Result<Rc<ManagedXError<W, R, T>>, String> {
+    ManagedXError::new("e".repeat(bytes), rt.clone()).map_err(|e| format!("{e:?}"))
+}
+
+/// a managed string value of `bytes` ASCII bytes
+pub fn managed_string<W, R, T>(
+    rt: &RTCell<W, R, T>,
+    bytes: usize,
+) -> Result<Rc<ManagedXValue<W, R, T>>, String> {
+    ManagedXValue::new(
+        XValue::String(Box::new(FencedString::from_string("s".repeat(bytes)))),
+        rt.clone(),
+    )
+    .map_err(|e| format!("{e:?}"))
+}
+
+/// `XValue::size` of that string value
+pub fn string_value_size<W, R, T>(_rt: &RTCell<W, R, T>, bytes: usize) -> usize {
+    XValue::<W, R, T>::String(Box::new(FencedString::from_string("s".repeat(bytes)))).size()
+}
+
+/// the platform constants the size model is parameterised by
+pub fn size_constants<W, R, T>(_rt: &RTCell<W, R, T>) -> Vec<(&'static str, usize)> {
+    vec![
+        ("xvalue", size_of::<XValue<W, R, T>>()),
+        ("bigint", size_of::<num_bigint::BigInt>()),
+        ("fenced_string", size_of::<FencedString>()),
+        ("usize", size_of::<usize>()),
+        ("rc", size_of::<Rc<ManagedXValue<W, R, T>>>()),
+    ]
+}
